@@ -7,7 +7,7 @@ from mc import l_pfopts as lp
 PROPERTY = "C34"
 LEVEL = "exploration"
 META = {
-    "text": "For every runpp option (the 15 named parameters and 12 documented keyword arguments) the real set_user_pf_options/runpp pair is driven through the full product stored in {absent, default value, non-default} x passed in {absent, default, non-default, positional default, positional non-default}, through all ordered pairs (o1 stored, o2 passed) and (o1, o2 stored, o1 passed) with default/non-default values, and through every sequence of <=2 (thorough <=3) set_user_pf_options calls with overwrite True/False; net._options after the call must equal net._options of the same network with nothing stored and the model's effective value (passed over stored) of every option passed explicitly.",
+    "text": "For every runpp option (the 15 named parameters and 12 documented keyword arguments) the real set_user_pf_options/runpp pair is driven through the full product stored in {absent, default value, non-default} x passed in {absent, default, non-default, positional default, positional non-default}, through the control-loop branch (run_control=True with an in-service controller) for every option stored x passed, through runpp call sequences of different call shapes in one process, through all ordered pairs (o1 stored, o2 passed) and (o1, o2 stored, o1 passed) with default/non-default values, and through every sequence of <=2 (thorough <=3) set_user_pf_options calls with overwrite True/False; net._options after the call must equal net._options of the same network with nothing stored and the model's effective value (passed over stored) of every option passed explicitly.",
     "note": "Trusted: the three-line precedence model (dict update) and the reference call with everything explicit. Derivations (init -> init_vm_pu/init_va_degree, max_iteration auto, voltage_depend_loads auto-off, numba/lightsim2grid availability) are taken from the reference run, not re-implemented. For an option that is stored and not passed the raw stored value is accepted in _options as well as the derived one (the statement does not fix the representation). recycle dicts and values outside the two-point alphabets are not covered.",
     "technique": "full configuration product on the real runpp with a differential precedence oracle (passed > stored > default)",
     "design_ref": "DESIGN.md §3 E1, §4 C34",
@@ -28,6 +28,9 @@ def run_case(case):
     for ow, kw in calls:
         pp.set_user_pf_options(n, overwrite=ow, **kw)
     stored = lp.model_store(calls)
+    for pre in case.get("pre", []):
+        # earlier runpp calls of other call shapes in the same process (on a scratch net): must not matter
+        lp.do_call(lp.net(case["net"]), [(o, lp.value(o, w)) for o, w in pre["pass"]], pre.get("positional", 0))
     oc, opts = lp.do_call(n, passed, case.get("positional", 0))
     pdict = dict(passed)
     merged = dict(stored)
@@ -85,8 +88,11 @@ def run_case(case):
     return out
 
 
-def _c(net, family, store, pass_, positional=0):
-    return {"net": net, "family": family, "store": store, "pass": pass_, "positional": positional}
+def _c(net, family, store, pass_, positional=0, pre=None):
+    c = {"net": net, "family": family, "store": store, "pass": pass_, "positional": positional}
+    if pre is not None:
+        c["pre"] = pre
+    return c
 
 
 def gen_cases(tier):
@@ -117,6 +123,33 @@ def gen_cases(tier):
             for p1 in ("d", "n"):
                 s1 = "n" if p1 == "d" else "d"
                 cases.append(_c(net, "pair_both_stored", [[False, [[o1, s1], [o2, "n"]]]], [[o1, p1]]))
+    # D: control-loop branch: run_control=True with an in-service controller; every other option stored x passed
+    for o in lp.OPTIONS:
+        if o == "run_control":
+            continue
+        for sv in [None] + vals(o):
+            store = [] if sv is None else [[False, [[o, sv]]]]
+            for pv in [None] + vals(o):
+                ps = [["run_control", "n"]] + ([] if pv is None else [[o, pv]])
+                cases.append(_c("C", "run_control", store, ps))
+    for o1, o2 in itertools.permutations(["tolerance_mva", "trafo3w_losses", "numba", "check_connectivity"], 2):
+        cases.append(_c("C", "run_control", [[False, [[o1, "n"], [o2, "n"]]]], [["run_control", "n"], [o1, "d"]]))
+    # E: sequences of runpp CALLS of different shapes before the judged call (same process)
+    def positional_upto(o, w):
+        k = lp.NAMED.index(o)
+        return [[q, "d"] for q in lp.NAMED[:k]] + [[o, w]]
+    for o in lp.NAMED:
+        pres = {"plain": {"pass": [], "positional": 0},
+                "keyword": {"pass": [[o, "n"]], "positional": 0},
+                "positional": {"pass": positional_upto(o, "n"), "positional": lp.NAMED.index(o) + 1},
+                "other_keyword": {"pass": [["numba", "d"]], "positional": 0}}
+        for pname in sorted(pres):
+            store = [[False, [[o, "n"]]]]
+            pos = positional_upto(o, "d")
+            cases.append(_c("P", "call_sequence", store, pos, positional=len(pos), pre=[pres[pname]]))
+            cases.append(_c("P", "call_sequence", store, [[o, "d"]], pre=[pres[pname]]))
+            cases.append(_c("P", "call_sequence", store, [], pre=[pres[pname]]))
+            cases.append(_c("P", "call_sequence", store, pos, positional=len(pos), pre=[pres["plain"], pres[pname]]))
     # C: sequences of set_user_pf_options calls
     sub = ["tolerance_mva", "check_connectivity", "init", "numba"]
     ops = [[True, []]] + [[ow, [[o, w]]] for ow in (False, True) for o in sub for w in ("d", "n")]
@@ -133,15 +166,16 @@ def explore(tier, seed):
     rep = core.Report(PROPERTY, LEVEL, tier, seed)
     core.warm(pf=True)
     import pandapower as pp
-    for nn in ("P", "Z"):
+    for nn in ("P", "Z", "C"):
         n = lp.net(nn)
         pp.runpp(n)
         pp.runpp(n, numba=False, enforce_q_lims=True, algorithm="iwamoto_nr")
     cases = gen_cases(tier)
     rep.rule = ("full product per option (stored absent/default/non-default x passed absent/default/non-default/"
                 "positional) on 2 nets; all ordered option pairs (stored o1, passed o2) x default/non-default and "
-                "(stored o1,o2; passed o1); all set_user_pf_options call sequences up to the depth bound x 3 passed "
-                "sets; distinct+non-trivial = a case with something stored AND something passed whose real and "
+                "(stored o1,o2; passed o1); the control-loop branch (run_control=True, in-service controller) x every option "
+                "stored x passed; runpp call sequences (plain / keyword / positional call before the judged call, same "
+                "process); all set_user_pf_options call sequences up to the depth bound x 3 passed sets; distinct+non-trivial = a case with something stored AND something passed whose real and "
                 "reference calls reached the same outcome class")
     rep.extra["options"] = len(lp.OPTIONS)
     rep.extra["named_parameters"] = len(lp.NAMED)
